@@ -1,14 +1,78 @@
-(* C01 - Simplification preserves type and meaning: what is proved about the executable model
-   models/Simplifier.v without a semantic domain.  Statements only. *)
+(* C01 - Simplification preserves type and meaning.  Theorems about the executable model
+   models/Simplifier.v (tied to pysmt/simplifier.py by harness/c01.py on every run).  Statements
+   only; every statement holds for EVERY order oracle [ora], i.e. for every order in which the
+   implementation may emit the arguments of And / Or / Times and the quantified variables.
+
+   Full statement (the goal):
+     forall ora I t ty r, tc t = Some ty -> wf_interp I -> div_safe I t ->
+       simplify_opt ora t = Some r -> tc r = Some ty /\ eval I r = eval I t
+   Proved so far for the fragment [in_frag] (proofs/SimplifierSem_proofs.v, [ok_node]):
+     stage 1: And Or Not Implies Iff Ite Equals, symbols, the five kinds of constants, function
+     applications, ForAll / Exists (array VALUES are not in the fragment yet);
+     stage 2: Plus Times Minus LE LT ToReal Div on Int and Real, and Pow with a non-negative
+     integer constant exponent (the exponents for which Sem.vpow is defined).
+   [in_frag] also asks what the constructors guarantee and tc does not check: arities, BV
+   constants in range with positive width, Real constants with positive denominator, and that
+   the sorts of symbols, bound variables and function results are inhabited first-order sorts
+   ([inhb]: positive widths, no function sort inside) - the hypothesis used by the rules that
+   drop unused quantified variables.
+   Interpretations: [wfi I] is the boolean form of Sem.wf_interp (equivalent: wf_interp_wfi);
+   the theorem is stated under both. *)
 From Coq Require Import List ZArith Bool String.
 From PySMT.core Require Import Syntax PyPrims.
 From PySMT.models Require Import TypeChecker Oracles Ctors Simplifier.
-From PySMT.proofs Require Import Simplifier_proofs.
+From PySMT.core Require Import Sem.
+From PySMT.proofs Require Import Simplifier_proofs SimplifierFold_proofs SimplifierSem_proofs SimplifierFoldComplete_proofs.
 Import ListNotations.
 
+(* "It never mentions a symbol that is not free in the original" - for all terms (no fragment
+   restriction), function names counted as symbols; [None] = the implementation raises. *)
+Theorem C01_simplify_no_new_symbols : forall ora t r,
+  simplify_opt ora t = Some r -> incl (fv r) (fv t).
+Proof. exact simplify_no_new_symbols. Qed.
+Theorem C01_simplify_total_no_new_symbols : forall ora t, incl (fv (simplify_with ora t)) (fv t).
+Proof. exact simplify_with_no_new_symbols. Qed.
+
+(* type and value preservation on the fragment *)
+Theorem C01_simplify_sound_partial : forall ora I t ty r,
+  in_frag t = true -> tc t = Some ty -> wfi I -> div_safe I t -> simplify_opt ora t = Some r ->
+  tc r = Some ty /\ eval I r = eval I t.
+Proof. exact simplify_sound_partial. Qed.
+Theorem C01_simplify_sound_partial_wf : forall ora I t ty r,
+  in_frag t = true -> tc t = Some ty -> wf_interp I -> div_safe I t -> simplify_opt ora t = Some r ->
+  tc r = Some ty /\ eval I r = eval I t.
+Proof. exact simplify_sound_partial_wf. Qed.
+Theorem C01_simplify_frag_closed : forall ora t ty r,
+  in_frag t = true -> tc t = Some ty -> simplify_opt ora t = Some r -> in_frag r = true.
+Proof. exact simplify_frag_closed. Qed.
+(* (for C02) closed, quantifier-free, UF-free terms of the fragment - [cfrag]: operators And Or Not
+   Implies Iff Ite Equals Plus Times Minus LE LT ToReal Div Pow and constants only - in which no
+   divisor evaluates to 0 ([nodiv0], every branch counted) simplify to a CONSTANT of the same
+   sort with the same value *)
+Theorem C01_fold_complete_partial : forall ora I t ty,
+  cfrag t = true -> tc t = Some ty -> wfi I -> nodiv0 I t ->
+  exists c, simplify_opt ora t = Some c /\ is_const c = true /\ tc c = Some ty /\ eval I c = eval I t.
+Proof. exact fold_complete_partial. Qed.
+Theorem C01_wfi_satisfiable : wfi I0.
+Proof. exact wfi_I0. Qed.
+
+(* constants are fixed points *)
 Theorem C01_simplify_idempotent_on_constants : forall ora o,
   match o with OBoolC _ | OIntC _ | ORealC _ _ | OBVC _ _ | OStrC _ => True | _ => False end ->
   simplify_opt ora (T o []) = Some (T o []).
 Proof. exact simplify_constant. Qed.
 
+(* for the operators of [fold_op] (all bit-vector operators and relations, bv2nat, Not, Iff,
+   Implies): constant arguments are folded to a constant whenever the rule returns *)
+Theorem C01_simplify_const_args_fold : forall ora o args r,
+  fold_op o = true -> Forall (fun a => arg_const_for o a = true) args ->
+  rule ora o args = Some r -> is_const r = true.
+Proof. exact const_args_fold. Qed.
+
+Print Assumptions C01_simplify_sound_partial.
+Print Assumptions C01_simplify_frag_closed.
+Print Assumptions C01_fold_complete_partial.
+Print Assumptions C01_simplify_no_new_symbols.
+Print Assumptions C01_simplify_total_no_new_symbols.
 Print Assumptions C01_simplify_idempotent_on_constants.
+Print Assumptions C01_simplify_const_args_fold.
